@@ -51,6 +51,14 @@ def run(ctx):
         "moov has a complete trak/mdia/minf/stbl/stts chain",
         "the reader is an io.ReadSeeker (bytes.Reader); mdat is read eagerly (DecModeNormal)",
     ]
+    ctx.notes["observations_not_claimed_as_violations"] = [
+        "an emsg that follows a complete fragment (moof mdat) in the same segment is appended to that preceding fragment "
+        "(children moof mdat emsg, C12_fragment_shape's trailing emsg*); under tfra delimiting it therefore sits in the previous "
+        "segment. Byte order is preserved by Encode; the property speaks about moof/mdat pairs only.",
+        "UpdateSidx leaves the further top-level sidx boxes and an mfra/tfra (moof offsets) as they were: after a sidx is "
+        "inserted the tfra offsets are stale. The property's tiling claim is about the (first) sidx only.",
+        "boxes outside init/sidx/segments/mfra (free, a second ftyp, a progressive mdat ...) are dropped by segment-mode Encode.",
+    ]
     exe, model = build(ctx)
     pr = ctx.proofs("c12", "C12Theorems.v")
     # ---- correspondence
